@@ -334,10 +334,28 @@ func (p *queryPlan) processClause(ctx context.Context, cls *semantic.GraphClause
 		if err != nil {
 			return false, err
 		}
-		if err := p.tbl.AppendTable(tbl); err != nil {
-			return b, err
+		if len(p.tbl.Bindings()) == 0 {
+			if err := p.tbl.AppendTable(tbl); err != nil {
+				return b, err
+			}
+			return b, nil
 		}
-		return b, nil
+		// The table already contains the data of the previous clauses.
+		if b {
+			if !cls.Optional {
+				return true, nil
+			}
+			// The optional triple does not exist, hence its aliases remain unbound.
+			nr := make(table.Row)
+			for _, k := range tbl.Bindings() {
+				nr[k] = &table.Cell{}
+			}
+			tbl.AddRow(nr)
+		}
+		if len(tbl.Bindings()) == 0 {
+			return false, nil
+		}
+		return false, p.tbl.DotProduct(tbl)
 	}
 
 	exist, total := 0, 0
